@@ -75,6 +75,9 @@ class Group:
     def add_unpack(self, c, raw, offset=0, record=False):
         self.ops.append(dict(cls=decl.cname(c), op='roundtrip', raw=raw.hex(), offset=offset, record=record, _c=c))
 
+    def add_eq(self, c, a, b):
+        self.ops.append(dict(cls=decl.cname(c), op='eqvals', a=jvalue(a), b=jvalue(b), _a=a, _b=b, _c=c))
+
     def add_blocks(self, c):
         self.ops.append(dict(cls=decl.cname(c), op='blocks', _c=c))
 
@@ -126,6 +129,12 @@ def run_groups(groups, tag='g'):
                                             variant=d.get('variant'), source=id(op),
                                             source_value=op['_value'], source_raw=bytes.fromhex(o['packed']['ok'])))
                         lines.append(f"CRound {c} {decl.cq_bytes(raw)} {d['offset']} {cq_outcome(d['outcome'])}")
+                elif op['op'] == 'eqvals':
+                    records.append(dict(group=g.gid, kind='eq', c=c, a=op['_a'], b=op['_b'], outcome=o))
+                    if 'ok' in o:
+                        lines.append(f"CEq {decl.cq_value(op['_a'])} {decl.cq_value(op['_b'])} {'true' if o['ok'][0] else 'false'} {'true' if o['ok'][1] else 'false'}")
+                    else:
+                        lines.append("CDefined (-1) true")      # an exception: never agrees with the model
                 elif op['op'] == 'blocks':
                     records.append(dict(group=g.gid, kind='blocks', c=c, outcome=o))
                     lines.append(f"CBlocks {c} {cq_blocks(o.get('ok', {}).get('unpack'), o)} {cq_blocks(o.get('ok', {}).get('pack'), o)}")
